@@ -212,6 +212,7 @@ def run(ctx: Ctx):
         ctx.ob("C10.b", "top-p:predicate", ok, fi.loc, why, construct="modify_logits_for_top_p_filtering:predicate")
     selection(ctx)
     forwarding(ctx)
+    registry(ctx)
 
 
 def selection(ctx: Ctx):
@@ -264,6 +265,50 @@ def selection(ctx: Ctx):
         elif ok:
             ok = it.sym(items[1]).op == "param" and it.sym(items[1]).args[0] == "action"
         ctx.ob("C10.c", f"{cn}._step", ok, fi.loc, f"returns ({', '.join(vg.show(it.sym(x), 2) for x in items)})", construct=f"{cn}._step:return")
+
+
+def registry(ctx: Ctx):
+    """C10.d: get_decoding_strategy falls back to Sampling for unknown names, so a name that is used anywhere in the package but is
+    missing from the registry (or mapped to another class) silently decodes with the wrong selector"""
+    fi = ctx.repo.get_function(DEC, "get_decoding_strategy")
+    ctx.fn(fi)
+    dicts = [n for n in ast.walk(fi.node) if isinstance(n, ast.Dict) and n.keys and all(isinstance(k, ast.Constant) and isinstance(k.value, str) for k in n.keys)
+             and all(isinstance(v, ast.Name) for v in n.values)]
+    if len(dicts) != 1:
+        raise AnalysisError("get_decoding_strategy: strategy registry literal not found")
+    reg = {k.value: v.id for k, v in zip(dicts[0].keys, dicts[0].values)}
+    want = {"greedy": "Greedy", "sampling": "Sampling", "beam_search": "BeamSearch", "evaluate": "Evaluate"}
+    bad = []
+    for k, cls_ in reg.items():
+        base = k.replace("multistart_", "").replace("multisample_", "")
+        if base in want and want[base] != cls_:
+            bad.append(f"'{k}' -> {cls_} (expected {want[base]})")
+    # decode types used as literals anywhere in the package
+    used = {}
+    KW = {"decode_type", "train_decode_type", "val_decode_type", "test_decode_type", "decoding_strategy"}
+    for mi in ctx.repo.modules.values():
+        for n in ast.walk(mi.tree):
+            vals = []
+            if isinstance(n, ast.Call):
+                vals += [(kw_.arg, kw_.value) for kw_ in n.keywords if kw_.arg in KW]
+            elif isinstance(n, (ast.FunctionDef, ast.AsyncFunctionDef)):
+                a = n.args
+                names = [x.arg for x in a.args]
+                vals += [(nm, d) for nm, d in zip(names[len(names) - len(a.defaults):], a.defaults) if nm in KW]
+                vals += [(x.arg, d) for x, d in zip(a.kwonlyargs, a.kw_defaults) if d is not None and x.arg in KW]
+            for nm, v in vals:
+                if isinstance(v, ast.Constant) and isinstance(v.value, str):
+                    used.setdefault(v.value, f"{mi.relpath}:{v.lineno}")
+    missing = {k: w for k, w in used.items() if k not in reg}
+    if len(used) < 4:
+        raise AnalysisError(f"only {len(used)} decode-type literals found in the package")
+    ok = not bad and not missing and set(want) <= set(reg)
+    ctx.ob("C10.d", "get_decoding_strategy:registry", ok, fi.loc,
+           f"{len(reg)} registered names, {len(used)} distinct decode-type literals used in the package, all registered and mapped to their selector class" if ok else
+           "; ".join(bad + [f"decode type '{k}' (used at {w}) is not registered: get_decoding_strategy silently falls back to Sampling" for k, w in sorted(missing.items())] +
+                     [f"'{k}' is not registered" for k in sorted(set(want) - set(reg))]),
+           construct="get_decoding_strategy:registry:" + ",".join(sorted(list(missing) + [b.split("'")[1] for b in bad] + sorted(set(want) - set(reg)))))
+    ctx.sample({"registry": reg, "decode_types_used": sorted(used)})
 
 
 def forwarding(ctx: Ctx):
